@@ -24,8 +24,28 @@ func RAsciiFold(c *core.Ctx) {
 	c.Rule("R-ASCIIFOLD", "every use of an ASCII-only ignore-case search helper (helpers.IndexStringIgnoreCaseASCII, IndexOfIgnoreCaseAscii, EqualStringIgnoreCaseASCII) sits in a function that tests its needle with isASCIIString/isASCIIRunes, or in a closure / helper whose constructing function (every static caller, transitively) performs that test: ASCII folding of a non-ASCII needle misses Unicode case pairs", 5)
 	p := c.P
 	asciiOnly := map[string]bool{"IndexStringIgnoreCaseASCII": true, "IndexOfIgnoreCaseAscii": true, "EqualStringIgnoreCaseASCII": true}
-	isTest := func(fn *ssa.Function) bool {
+	isBaseTest := func(fn *ssa.Function) bool {
 		return fn != nil && (core.BaseName(fn) == "isASCIIString" || core.BaseName(fn) == "isASCIIRunes")
+	}
+	// the test itself, or a boolean helper of the module built on it (allASCIIStrings(prefixes))
+	isTest := func(fn *ssa.Function) bool {
+		if isBaseTest(fn) {
+			return true
+		}
+		if fn == nil || !core.InModule(fn) || fn.Signature.Results().Len() != 1 {
+			return false
+		}
+		if bt, ok := fn.Signature.Results().At(0).Type().Underlying().(*types.Basic); !ok || bt.Kind() != types.Bool {
+			return false
+		}
+		for _, b := range fn.Blocks {
+			for _, ins := range b.Instrs {
+				if ci, ok := ins.(ssa.CallInstruction); ok && isBaseTest(ci.Common().StaticCallee()) {
+					return true
+				}
+			}
+		}
+		return false
 	}
 	funcs := p.ModuleFuncs()
 	hasTest := map[*ssa.Function]bool{}
@@ -59,7 +79,7 @@ func RAsciiFold(c *core.Ctx) {
 		if hasTest[fn] {
 			return true
 		}
-		if depth > 4 || seen[fn] {
+		if depth > 6 || seen[fn] {
 			return false
 		}
 		seen[fn] = true
